@@ -15,7 +15,7 @@ chunks included) the merge equals the routine applied to the whole array.  Eleme
 Clauses of the statement and their theorems:
   unique (index, inverse, counts)   unique_merge, unique_den, unique_spec_char, unique_chunked_char, unique_inverse_den
   bincount                          bincount_den, bincount_tree, bincount_tree_den, bincount_weights_den
-  histogram / histogram2d           histogram_den, histogramdd_den, histogram2d_den, histogram2d_rejects
+  histogram / histogram2d           histogram_den, histogram_weights_den, histogramdd_den, histogram2d_den, histogram2d_rejects
   digitize                          digitize_den, digitize_increasing, digitize_decreasing
   searchsorted                      searchsorted_den
   isin                              isin_den
@@ -477,6 +477,17 @@ theorem histogramdd_den (edges : List (List Nat)) (blocks : List (List (List Nat
   exact sumVecs_counts (inCell edges) (cells (nbinsOf edges)) blocks
 
 example : histddMerge [[0, 2, 4], [0, 3, 6]] [[[0, 0], [1, 5]], [], [[4, 6], [2, 2], [9, 1]]] = [1, 1, 1, 1] := by decide
+
+/-- **histogram_weights_den**: with fixed edges and weights chunked like the data (exact weights), the sum over the
+    chunks of the per-chunk weighted histograms is the weighted histogram of the whole. -/
+theorem histogram_weights_den (edges : List Nat) (blocks : List (List Nat × List Int))
+    (h : ∀ b ∈ blocks, b.1.length = b.2.length) :
+    histMergeW edges blocks = histBlockW edges (blocks.flatMap (·.1)) (blocks.flatMap (·.2)) := by
+  unfold histMergeW histBlockW
+  exact sumVecsI_wsums (fun i => inBin edges i) (List.range (edges.length - 1)) blocks h
+
+example : histMergeW [0, 2, 4] [([0, 1, 2], [1, -2, 5]), ([4, 3], [7, 1])] = [-1, 13] := by decide
+example : ∀ b ∈ ([([0, 1, 2], [1, -2, 5]), ([4, 3], [7, 1])] : List (List Nat × List Int)), b.1.length = b.2.length := by decide
 
 /-- **histogram2d_den**: `da.histogram2d(x, y, bins=[ex, ey])` for coordinate arrays with the SAME chunking (any
     chunking): per-chunk pairing, per-chunk 2-d histogram, sum over the chunks = the 2-d histogram of the pairs
